@@ -578,19 +578,20 @@ def configs(tier):
         add(mp="axil", kind="axil2wb", lanes=1, words=2, gfree=WB, **LV, cost=2)
         add(mp="axil", kind="axil2wb", lanes=4, words=2, gfree=WB, serial=1, strbs=[15, 2, 0], datas=[5, 10], wwords=[1])
     # ---------------------------------------------------------------- AXI-Lite down converter
-    add(mp="axil", kind="down", ratio=2, lanes=2, words=2, gfree=G1, strbs=[3, 1, 0], datas=[1, 2], serial=1, cost=2,
-        case="low-lanes-enabled")
-    add(mp="axil", kind="down", ratio=2, lanes=2, words=2, gfree=GW, dirs="w", **LV, case="low-lanes-disabled", alone=1)
-    add(mp="axil", kind="down", ratio=2, lanes=2, words=2, gfree=GW, dirs="w", strbs=[3, 1, 0], **LV, case="low-lanes-enabled")
+    add(mp="axil", kind="down", ratio=2, lanes=2, words=2, gfree=G1, datas=[1, 2], serial=1, cost=3)
+    add(mp="axil", kind="down", ratio=2, lanes=2, words=2, gfree=GW, dirs="w", **LV)      # incl. skipped sub-words (fix 928e147)
     add(mp="axil", kind="down", ratio=2, lanes=2, words=2, gfree=GR, dirs="r", live=1)
-    add(mp="axil", kind="down", ratio=2, lanes=2, words=2, gfree=G1, strbs=[3, 1], bad=1, serial=1, **LV, case="low-lanes-enabled")
+    add(mp="axil", kind="down", ratio=2, lanes=2, words=2, gfree=G1, strbs=[3, 1, 2], bad=1, serial=1, **LV)
     if T:
-        add(mp="axil", kind="down", ratio=2, lanes=2, words=2, gfree=G1, strbs=[3, 1, 0], **LV, case="low-lanes-enabled", cost=2)
-        add(mp="axil", kind="down", ratio=4, lanes=4, words=2, gfree=G1, strbs=[15, 1, 3, 0], datas=[5, 10], wwords=[1], serial=1,
-            case="low-lanes-enabled", cost=3)
+        add(mp="axil", kind="down", ratio=2, lanes=2, words=2, gfree=G1, **LV, cost=3)
+        add(mp="axil", kind="down", ratio=4, lanes=4, words=2, gfree=G1, strbs=[15, 1, 3, 8, 6, 0], datas=[5, 10], wwords=[1], serial=1,
+            cost=4)
+        add(mp="axil", kind="down", ratio=4, lanes=4, words=2, gfree=GW, dirs="w", strbs=[15, 1, 8, 6, 0], wwords=[1], **LV, cost=2)
         add(mp="axil", kind="down", ratio=4, lanes=4, words=2, gfree=GR, dirs="r", live=1)
-        add(mp="axil", kind="down", ratio=2, lanes=2, words=2, gfree=GW, dirs="w", strbs=[3, 1, 0], **LV, wbuf=1, abuf=1,
-            case="low-lanes-enabled", cost=3)
+        add(mp="axil", kind="down", ratio=8, lanes=8, words=2, gfree=GR, dirs="r", live=1)
+        add(mp="axil", kind="down", ratio=8, lanes=8, words=2, gfree=G1, strbs=[255, 0x81, 0x10, 0], datas=[0x55, 0xaa], wwords=[1],
+            serial=1, alone=1)
+        add(mp="axil", kind="down", ratio=2, lanes=2, words=2, gfree=GW, dirs="w", **LV, wbuf=1, abuf=1, cost=3)
     # ---------------------------------------------------------------- AXI-Lite up converter
     add(mp="axil", kind="up", ratio=2, lanes=1, words=4, gfree=G1, serial=1, awfirst=1, case="address-first", cost=3)
     add(mp="axil", kind="up", ratio=2, lanes=1, words=4, gfree=G1, dirs="w", awfirst=1, wwords=[0, 1], **LV, case="address-first")
@@ -601,6 +602,9 @@ def configs(tier):
     if T:
         add(mp="axil", kind="up", ratio=2, lanes=1, words=4, gfree=G1, awfirst=1, wwords=[0, 1], rwords=[0, 1], **LV,
             case="address-first", cost=3)
+        add(mp="axil", kind="up", ratio=4, lanes=1, words=8, gfree=G1, serial=1, awfirst=1, wwords=[1, 6], case="address-first", cost=4)
+        add(mp="axil", kind="up", ratio=2, lanes=2, words=4, gfree=G1, serial=1, awfirst=1, wwords=[1, 2], strbs=[3, 2, 0], datas=[1, 2],
+            init="alt", case="address-first", cost=4)
     # ---------------------------------------------------------------- AXI-Lite -> CSR
     add(mp="axil", kind="axil2csr", lanes=1, words=2)
     add(mp="axil", kind="axil2csr", lanes=1, words=2, **LV, **A0)
@@ -631,8 +635,8 @@ def configs(tier):
     # ---------------------------------------------------------------- adapter chains of SoCBusHandler.add_adapter
     add(mp="wb", kind="chain_wb_axil", lanes=4, slanes=8, words=4, wwords=[0, 3], strbs=[15, 2], datas=[5, 10], gfree=G1, live=1, cost=2)
     if T:
-        add(mp="axil", kind="chain_axil_wb", lanes=8, slanes=4, words=2, wwords=[1], strbs=[255, 15, 1], datas=[0x55, 0xaa],
-            gfree=WB, serial=1, live=1, case="low-lanes-enabled", cost=3)
+        add(mp="axil", kind="chain_axil_wb", lanes=8, slanes=4, words=2, wwords=[1], strbs=[255, 15, 1, 0xf0], datas=[0x55, 0xaa],
+            gfree=WB, serial=1, live=1, alone=1)
     # ---------------------------------------------------------------- AXI -> AXI-Lite / Wishbone
     P2 = [[0, 0, 1], [0, 1, 1]]
     P5 = [[0, 0, 1], [1, 0, 1], [0, 1, 1], [1, 1, 2], [0, 1, 0]]
